@@ -181,6 +181,7 @@ func cmdCheck(args []string) {
 
 	var ctxs []*FnCtx
 	var funcsUnder []string
+	var inlinedHelpers []string
 	if eng != nil && eng.prog != nil {
 		var keys []string
 		for k := range eng.fnByKey {
@@ -195,9 +196,14 @@ func cmdCheck(args []string) {
 			}
 		}
 		sort.Strings(keys)
+		inlinedOnly := eng.inlinedOnlyHelpers(keys)
 		for _, k := range keys {
 			con := eng.contracts.Funcs[k]
 			if con != nil && (con.Trusted != "" || con.Inline) {
+				continue
+			}
+			if inlinedOnly[k] {
+				inlinedHelpers = append(inlinedHelpers, k)
 				continue
 			}
 			for _, fn := range eng.fnByKey[k] {
@@ -584,6 +590,7 @@ func cmdCheck(args []string) {
 			"checker_cmd":              fmt.Sprintf("/verif/bin/govc check %s --tier %s  (VCs generated from go/ssa of /repo with -tags=verif; z3-new/z3/cvc5 raced per obligation, timeout %d ms)", pid, *tier, timeout),
 			"trusted_base":             trusted,
 			"functions_under_contract": funcsUnder,
+			"helpers_verified_inlined": inlinedHelpers,
 			"path_instances":           len(all),
 			"solver_counts":            solverCount,
 			"solver_ms_total":          solverMs,
